@@ -12,6 +12,7 @@ import (
 	"fmt"
 	"hash/fnv"
 	"math/rand/v2"
+	"os"
 	"runtime"
 	"sort"
 	"strconv"
@@ -145,14 +146,14 @@ type Sim struct {
 
 	Policy SchedPolicy
 
-	Panics    []string
-	Probes    map[string]int
-	Faults    map[string]int
+	Panics     []string
+	Probes     map[string]int
+	Faults     map[string]int
 	NContended int
-	Parks     int
-	Steps     int64
-	schedHash uint64
-	traceHash uint64
+	Parks      int
+	Steps      int64
+	schedHash  uint64
+	traceHash  uint64
 
 	opsLive atomic.Int64
 	stepCtr *atomic.Int64 // watchdog progress counter (process-global)
@@ -270,7 +271,12 @@ func (s *Sim) Go(name string, fn func()) {
 
 // ---- verifhook.Hooks ------------------------------------------------------
 
+var debugSched = os.Getenv("SIM_DEBUG_SCHED") != ""
+
 func (s *Sim) Yield(site string) {
+	if debugSched {
+		s.Record("yield", site, "", nil)
+	}
 	if !s.Policy.Active || s.Policy.ParkPermille == 0 {
 		return
 	}
